@@ -31,12 +31,12 @@ fn plan(f: &Fault, total_calls: usize) -> FaultPlan {
             1 => FaultMode::AllLater,
             _ => FaultMode::EverySecond,
         },
-        kind: [io::ErrorKind::BrokenPipe, io::ErrorKind::WouldBlock, io::ErrorKind::Other][f.kind as usize % 3],
+        kind: [io::ErrorKind::BrokenPipe, io::ErrorKind::WouldBlock, io::ErrorKind::Other, io::ErrorKind::Interrupted, io::ErrorKind::TimedOut][f.kind as usize % 5],
     }
 }
 
 fn fault_strategy() -> BoxedStrategy<Fault> {
-    (any::<u16>(), 0u8..3, 0u8..3).prop_map(|(sel, mode, kind)| Fault { sel, mode, kind }).boxed()
+    (any::<u16>(), 0u8..3, 0u8..5).prop_map(|(sel, mode, kind)| Fault { sel, mode, kind }).boxed()
 }
 
 type Getters = (u64, Option<u64>, String, String, bool);
@@ -58,7 +58,7 @@ fn single_run(c: &c01::BarCase, fault: Option<FaultPlan>) -> Result<(Vec<Result<
     let (rows, cols) = (c.rows.max(1) as usize, c.cols.max(1) as usize);
     let vt = VTerm::new(rows, cols);
     vt.set_fault(fault);
-    let pb = ProgressBar::with_draw_target(c.len, ProgressDrawTarget::term_like(vt.boxed()));
+    let pb = Guarded::new(ProgressBar::with_draw_target(c.len, ProgressDrawTarget::term_like(vt.boxed())));
     pb.set_style(c.tpl.style());
     let mut st = BarState::new(c.len, c.tpl.clone());
     let mut got = vec![];
@@ -90,7 +90,7 @@ fn single_run(c: &c01::BarCase, fault: Option<FaultPlan>) -> Result<(Vec<Result<
         got.push(getters(&pb));
     }
     let before = vt.lock().faults_fired;
-    catch(move || drop(pb)).map_err(|p| Fail::new("panic", format!("dropping the bar panicked with a failing terminal ({fault:?}): {p}")))?;
+    pb.drop_now().map_err(|p| Fail::new("panic", format!("dropping the bar panicked with a failing terminal ({fault:?}): {p}")))?;
     if vt.lock().faults_fired > before {
         struck.push("drop");
     }
@@ -195,7 +195,7 @@ fn run_multi(c: &MultiFaultCase) -> CaseResult {
 }
 
 fn decode_fault(u: &mut FuzzInput) -> Fault {
-    Fault { sel: u.u16(), mode: u.n(2) as u8, kind: u.n(2) as u8 }
+    Fault { sel: u.u16(), mode: u.n(2) as u8, kind: u.n(4) as u8 }
 }
 
 fn decode_c18_single(u: &mut FuzzInput) -> SingleCase {
@@ -214,20 +214,99 @@ fn decode_c18_multi(u: &mut FuzzInput) -> MultiFaultCase {
     MultiFaultCase { multi, fault }
 }
 
+// ------------------------------------------------------------------------------------------
+// a terminal that stays broken for a long history, on rate-limited targets
+
+#[derive(Debug, Clone, Serialize, Deserialize)]
+pub struct LongCase {
+    hz: Option<u8>,
+    in_multi: bool,
+    /// number of rounds of forced draws against the failing terminal
+    rounds: u16,
+    /// which forced call is repeated: 0 println, 1 force_draw, 2 finish+reset, 3 suspend, 4 mixed
+    call: u8,
+    kind: u8,
+    /// the terminal starts failing after this many good calls
+    good_calls: u16,
+    /// clock step per round in ms (0 = frozen: no ordinary draw is granted in between)
+    #[serde(default)]
+    step_ms: u8,
+    /// an ordinary inc() + getter check every this many rounds (0 = only at the end)
+    #[serde(default)]
+    inc_every: u16,
+}
+
+fn run_long(c: &LongCase) -> CaseResult {
+    let _clk = clock::Armed::new();
+    let vt = VTerm::raw(50, 60);
+    let target = match c.hz {
+        Some(hz) => ProgressDrawTarget::term_like_with_hz(vt.boxed(), hz.max(1)),
+        None => ProgressDrawTarget::term_like(vt.boxed()),
+    };
+    let mp = if c.in_multi { Some(indicatif::MultiProgress::with_draw_target(target)) } else { None };
+    let mp = Guarded::new(mp);
+    let (pb, sib) = match &*mp {
+        Some(m) => (m.add(ProgressBar::with_draw_target(Some(10), ProgressDrawTarget::hidden())), Some(m.add(ProgressBar::with_draw_target(Some(10), ProgressDrawTarget::hidden())))),
+        None => (ProgressBar::with_draw_target(Some(10), ProgressDrawTarget::term_like_with_hz(vt.boxed(), c.hz.unwrap_or(20).max(1))), None),
+    };
+    let (pb, sib) = (Guarded::new(pb), Guarded::new(sib));
+    let kind = [io::ErrorKind::BrokenPipe, io::ErrorKind::WouldBlock, io::ErrorKind::Other, io::ErrorKind::Interrupted, io::ErrorKind::TimedOut][c.kind as usize % 5];
+    vt.set_fault(Some(FaultPlan { at: c.good_calls as usize, mode: FaultMode::AllLater, kind }));
+    let mut pos = 0u64;
+    for r in 0..c.rounds {
+        clock::advance(Duration::from_millis(c.step_ms as u64));
+        let which = if c.call % 5 == 4 { (r % 4) as u8 } else { c.call % 5 };
+        catch(|| match which {
+            0 => pb.println("log"),
+            1 => pb.force_draw(),
+            2 => {
+                pb.finish();
+                pb.reset();
+            }
+            _ => pb.suspend(|| ()),
+        })
+        .map_err(|p| Fail::new("panic", format!("round {r}: forced call #{which} panicked with a terminal that fails since call {} ({kind:?}, rate {:?}, in MultiProgress: {}): {p}", c.good_calls, c.hz, c.in_multi)))?;
+        if which == 2 {
+            pos = 0;
+        }
+        if (c.inc_every > 0 && r % c.inc_every == 0) || r + 1 == c.rounds {
+            catch(|| pb.inc(1)).map_err(|p| Fail::new("panic", format!("round {r}: inc panicked: {p}")))?;
+            pos += 1;
+            let g = getters(&pb).map_err(|e| Fail::new("poisoned", format!("round {r}: getters panicked (lock poisoned?): {e}")))?;
+            ensure!(g.0 == pos, "state", "round {r}: position() = {}, expected {pos}", g.0);
+            if let Some(s) = &*sib {
+                catch(|| s.tick()).map_err(|p| Fail::new("panic", format!("round {r}: tick on the sibling bar panicked: {p}")))?;
+                getters(s).map_err(|e| Fail::new("poisoned", format!("round {r}: sibling getters panicked: {e}")))?;
+            }
+        }
+    }
+    let r = (pb.drop_now(), sib.drop_now(), mp.drop_now());
+    if let (Err(p), _, _) | (_, Err(p), _) | (_, _, Err(p)) = r {
+        return Err(Fail::new("panic", format!("dropping after {} failed rounds panicked: {p}", c.rounds)));
+    }
+    let mut v = Verdict::default();
+    v.nontrivial = vt.lock().faults_fired > 100;
+    v.label_if(vt.lock().faults_fired > 100, "more_than_100_failed_calls");
+    v.label_if(vt.lock().faults_fired > 300, "more_than_300_failed_calls");
+    v.label_if(c.hz.is_some(), "rate_limited_target");
+    v.label_if(c.in_multi, "inside_multi_progress");
+    Ok(v)
+}
+
 pub fn property() -> Property {
     let w = default_workers();
     Property {
         id: "C18",
         level: "fault_enumeration",
         assumptions: &[
-            "faults are injected at the TermLike boundary: the k-th fallible terminal call (moves, writes, clear, flush) returns an io::Error (BrokenPipe / WouldBlock / Other), once, from then on, or every second call",
+            "faults are injected at the TermLike boundary: the k-th fallible terminal call (moves, writes, clear, flush) returns an io::Error (BrokenPipe / WouldBlock / Other / Interrupted / TimedOut), once, from then on, or every second call",
             "k is drawn uniformly over the calls of the fault-free run of the same history (generated, not exhaustive; the thorough tier raises the count)",
             "logical state is compared with a fault-free twin run of the same history",
         ],
         parts: vec![
             Box::new(Gen::<SingleCase> {
                 name: "single",
-                rule: "C01 single-bar histories (incl. set_tab_width, suspend, println, finish*, drop) x fault plan (index k among the fault-free run's terminal calls, mode once/all-later/every-second, 3 error kinds); no op may unwind, getters must equal the fault-free twin after every op; non-trivial = the fault fired inside an op (labelled by the op it struck)",
+                rule: "C01 single-bar histories (incl. set_tab_width, suspend, println, finish*, drop) x fault plan (index k among the fault-free run's terminal calls, mode once/all-later/every-second, 5 error kinds); no op may unwind, getters must equal the fault-free twin after every op; non-trivial = the fault fired inside an op (labelled by the op it struck)",
                 strategy: |t| (c01::case_strategy(t), fault_strategy()).prop_map(|(bar, fault)| SingleCase { bar, fault }).boxed(),
                 cases: |t| t.pick(4_000, 800_000),
                 run: run_single,
@@ -257,6 +336,21 @@ pub fn property() -> Property {
                 essential: &["set_tab_width", "suspend", "println", "clear", "finish", "draw", "drop", "set_draw_target"],
                 workers: w,
                 decode: Some(decode_c18_multi),
+            }),
+            Box::new(Gen::<LongCase> {
+                name: "long_fault",
+                rule: "a terminal that fails from the k-th call on and stays broken for 50-700 rounds of forced draws (println / force_draw / finish+reset / suspend / mixed) on a standalone or MultiProgress target with refresh rate None/1/20/255: no call may panic, inc() and the getters of the bar and of a sibling keep working, drops do not panic; non-trivial = more than 100 failed terminal calls",
+                strategy: |_| {
+                    (proptest::option::weighted(0.8, prop_oneof![Just(1u8), Just(20), Just(255)]), any::<bool>(), 50u16..700, 0u8..5, 0u8..5, 0u16..30, prop_oneof![Just(0u8), Just(1), Just(50)], prop_oneof![Just(0u16), Just(16), Just(200)])
+                        .prop_map(|(hz, in_multi, rounds, call, kind, good_calls, step_ms, inc_every)| LongCase { hz, in_multi, rounds, call, kind, good_calls, step_ms, inc_every })
+                        .boxed()
+                },
+                cases: |t| t.pick(150, 8_000),
+                run: run_long,
+                signature: no_signature,
+                essential: &["more_than_100_failed_calls", "more_than_300_failed_calls", "rate_limited_target", "inside_multi_progress"],
+                workers: w,
+                decode: None,
             }),
         ],
     }
